@@ -123,6 +123,42 @@ def run_check(prop, info, tier, seed, only, verbose):
                 unknowns.append(o)
         if r.status == "ok" and n_real == 0:
             errors.append((r.target, "zero obligations generated (vacuous contract)"))
+    # --- replay
+    rt = info.get("runtime")
+    rtmod = None
+    if rt is not None:
+        try:
+            rtmod = importlib.import_module(rt)
+        except ImportError:
+            rtmod = None
+    # an obligation the solvers cannot decide is undecided - unless the run-time contract exhibits
+    # a concrete failing input on the real code, in which case it is a violation with a witness
+    for o in list(unknowns):
+        kf = next((k for k in known if kf_matches(k, o)), None)
+        if kf is not None:
+            # a listed finding whose obligation the solvers leave open: it stays a known finding provided the clause
+            # is PROVED outside the recorded failing region (checked below)
+            known_hits.append((kf, o))
+            if not kf.get("region"):
+                undecided.append((o.name, "known finding without region and no counter-model"))
+            continue
+        w = None
+        if rtmod is not None and kf is None:
+            try:
+                w = rtmod.replay(o, seed)
+            except Exception:  # noqa: BLE001
+                w = None
+        if w is not None:
+            o.model = "(solver answer: unknown; violation established by the run-time contract on the real code)\n" + o.model
+            violations.append(o)
+        elif kf is None:
+            # every obligation discharges on the pinned tree (that is what exit 0 there means): an obligation
+            # that can no longer be discharged, even with the long budget and all back ends, is reported
+            # as a violation without a failing input (the replay file carries the solver's reason).
+            o.model = f"(no counter-model: all back ends answered '{o.result}' within the extended budget; this clause is discharged on the pinned tree)\n" + o.model
+            violations.append(o)
+        else:
+            undecided.append((o.name, f"solver: {o.result} {o.model[:200]}"))
     # --- known findings: the clause must still hold outside the recorded failing region
     region_obs = []
     for kf, o in known_hits:
@@ -141,35 +177,6 @@ def run_check(prop, info, tier, seed, only, verbose):
                 violations.append(ro)
             elif ro.result != "unsat":
                 undecided.append((ro.name, f"solver: {ro.result}"))
-    # --- replay
-    rt = info.get("runtime")
-    rtmod = None
-    if rt is not None:
-        try:
-            rtmod = importlib.import_module(rt)
-        except ImportError:
-            rtmod = None
-    # an obligation the solvers cannot decide is undecided - unless the run-time contract exhibits
-    # a concrete failing input on the real code, in which case it is a violation with a witness
-    for o in unknowns:
-        kf = next((k for k in known if kf_matches(k, o)), None)
-        w = None
-        if rtmod is not None and kf is None:
-            try:
-                w = rtmod.replay(o, seed)
-            except Exception:  # noqa: BLE001
-                w = None
-        if w is not None:
-            o.model = "(solver answer: unknown; violation established by the run-time contract on the real code)\n" + o.model
-            violations.append(o)
-        elif kf is None:
-            # every obligation discharges on the pinned tree (that is what exit 0 there means): an obligation
-            # that can no longer be discharged, even with the long budget and all back ends, is reported
-            # as a violation without a failing input (the replay file carries the solver's reason).
-            o.model = f"(no counter-model: all back ends answered '{o.result}' within the extended budget; this clause is discharged on the pinned tree)\n" + o.model
-            violations.append(o)
-        else:
-            undecided.append((o.name, f"solver: {o.result} {o.model[:200]}"))
     lines = []
     replays = []
     seen_kf = set()
@@ -230,8 +237,24 @@ def run_check(prop, info, tier, seed, only, verbose):
                 if o.kind != "canary" and o.result != "unsat":
                     print(f"       {o.result:8s} {o.name} ({o.seconds:.1f}s)")
     # --- evidence
-    real = [o for o in obs if o.kind != "canary"]
+    kf_ids = {id(o) for _, o in known_hits}
+    # obligations of a listed known finding are replaced by their "outside the failing region" version
+    real = [o for o in obs if o.kind != "canary" and id(o) not in kf_ids] + list(region_obs)
     disch = [o for o in real if o.result == "unsat"]
+    kf_confirm = []
+    seen_c = set()
+    for kf, o in known_hits:
+        key = (kf["function"], kf.get("obligation"))
+        if key in seen_c:
+            continue
+        seen_c.add(key)
+        w = None
+        if rtmod is not None:
+            try:
+                w = rtmod.replay(o, seed)
+            except Exception:  # noqa: BLE001
+                w = None
+        kf_confirm.append({"finding": kf["what"], "obligation": o.name, "solver": o.result, "replayed_on_real_code": w})
     by_backend = {}
     for o in disch:
         by_backend[o.backend] = by_backend.get(o.backend, 0) + 1
@@ -257,8 +280,14 @@ def run_check(prop, info, tier, seed, only, verbose):
             "slowest": round(max([o.seconds for o in fr] or [0]), 3),
         })
     samples = []
-    for o in real[:: max(1, len(real) // 3)][:3]:
-        samples.append({"obligation": o.name, "kind": o.kind, "result": o.result, "backend": o.backend, "smt2_head": (o.smt2 or "(trivial after simplification)")[-1500:]})
+    from pyvc.solve import to_smt2
+
+    for o in [x for x in real if x.backend != "simplifier"][:: max(1, len(real) // 3)][:3] or real[:1]:
+        try:
+            smt = to_smt2(o) if o.hyps or o.backend != "simplifier" else "(trivial after simplification)"
+        except Exception:  # noqa: BLE001
+            smt = "(not printable)"
+        samples.append({"obligation": o.name, "kind": o.kind, "result": o.result, "backend": o.backend, "smt2_tail": smt[-1500:]})
     trusted_fns = [f"{r.target}: {r.reason}" for r in reports if r.status == "trusted"]
     assumptions = list(GLOBAL_TRUSTED) + list(info.get("assumptions", [])) + [f"assumed contract (not verified): {t}" for t in trusted_fns]
     assumed_all = sorted({a for r in reports for a in r.assumed})
@@ -278,7 +307,7 @@ def run_check(prop, info, tier, seed, only, verbose):
             "solver_seconds_total": round(sum(o.seconds for o in real), 2),
             "solve_wall_s": round(t_solve, 2),
             "canaries": {"total": len([o for o in obs if o.kind == "canary"]), "not_proved(as required)": len([o for o in obs if o.kind == "canary" and o.result != "unsat"])},
-            "known_findings_confirmed": [kf["what"] for kf, _ in known_hits],
+            "known_findings_confirmed": kf_confirm,
             "bounded_standins": info.get("bounded_standins", []),
             "samples": samples,
             "not_covered": info.get("not_covered", []),
